@@ -3,6 +3,7 @@ package c14
 import (
 	"fmt"
 	"math"
+	"regexp"
 	"sort"
 	"strconv"
 	"strings"
@@ -518,4 +519,209 @@ func kindClass(n string) string {
 		return "null"
 	}
 	return "bool"
+}
+
+// ---- round 4: expressions with an expression-indexed reference that is NOT
+// in first position (after a literal / operand / function argument) ----------
+
+// exprForm builds the Soy expression around the quoted literal qs and says
+// what it evaluates to for the literal's value s (data: see indexedData).
+type exprForm struct {
+	name  string
+	build func(qs string) string
+	value func(s string) string
+}
+
+var exprForms = []exprForm{
+	{"lit+idx", func(qs string) string { return qs + " + $arr[$i]" }, func(s string) string { return s + "v1" }},
+	{"lit+idx+lit", func(qs string) string { return qs + " + $arr[$i + 0] + " + qs }, func(s string) string { return s + "v1" + s }},
+	{"lit+nested-idx", func(qs string) string { return qs + " + $arr[$idx[$i]]" }, func(s string) string { return s + "v0" }},
+	{"lit+nullsafe-idx", func(qs string) string { return qs + " + $arr?[$i]" }, func(s string) string { return s + "v1" }},
+	{"lit+map-idx", func(qs string) string { return qs + " + $mp[$k + 'y'] + $mp[$k + 'z']" }, func(s string) string { return s + "mvmw" }},
+	{"lit+func-of-idx", func(qs string) string { return qs + " + max($nums[$i], $nums[$z])" }, func(s string) string { return s + "2" }},
+	{"idx+lit+idx", func(qs string) string { return "$arr[$z] + " + qs + " + $arr[$i]" }, func(s string) string { return "v0" + s + "v1" }},
+	{"ternary-idx", func(qs string) string { return "$nums[$i] > $nums[$z] ? " + qs + " + $arr[$i] : $arr[$z]" }, func(s string) string { return s + "v1" }},
+}
+
+func indexedData(g *gen) {
+	g.use("arr", []interface{}{"v0", "v1"})
+	g.use("idx", []interface{}{1, 0})
+	g.use("nums", []interface{}{0, 2})
+	g.use("mp", map[string]interface{}{"ky": "mv", "kz": "mw"})
+	g.use("i", 1)
+	g.use("z", 0)
+	g.use("k", "k")
+}
+
+// exprContext puts an expression e (value v) where the generator renders
+// expressions: print, directive chains, {let}, {param}, data=, css base, if,
+// switch, foreach list, message placeholder, bracket index.
+type exprContext struct {
+	name  string
+	inMsg bool
+	build func(e, v string, g *gen) (frag, expect string, ok bool)
+}
+
+var exprContexts = []exprContext{
+	{"print", true, func(e, v string, g *gen) (string, string, bool) { return "{" + e + "}", v, true }},
+	{"print-directives", true, func(e, v string, g *gen) (string, string, bool) {
+		return "{" + e + " |noAutoescape |truncate:5000}", v, len(v) < 4000
+	}},
+	{"let-value", false, func(e, v string, g *gen) (string, string, bool) { return "{let $t: " + e + "/}{$t}", v, true }},
+	{"param-value", true, func(e, v string, g *gen) (string, string, bool) {
+		g.needEcho = true
+		return "{call .echo}{param p: " + e + "/}{/call}", v, true
+	}},
+	{"call-data", true, func(e, v string, g *gen) (string, string, bool) {
+		g.needEcho = true
+		return "{call .echo data=" + attr("['p': "+e+"]") + "/}", v, true
+	}},
+	{"css-base", true, func(e, v string, g *gen) (string, string, bool) {
+		return "{css " + e + ", suf}", v + "-suf", !hasAny(e, "{}\n\r")
+	}},
+	{"if-equals", false, func(e, v string, g *gen) (string, string, bool) {
+		g.use("want", v)
+		return "{if " + e + " == $want}hit{elseif $want == " + e + "}late{else}miss{/if}", "hit", true
+	}},
+	{"switch", false, func(e, v string, g *gen) (string, string, bool) {
+		g.use("want", v)
+		return "{switch " + e + "}{case 'zz', $want}hit{default}miss{/switch}", "hit", v != "zz"
+	}},
+	{"foreach-list", false, func(e, v string, g *gen) (string, string, bool) {
+		return "{foreach $q in ['a', " + e + ", 'z']}{$q}{/foreach}", "a" + v + "z", true
+	}},
+	{"msg-placeholder", false, func(e, v string, g *gen) (string, string, bool) {
+		return `{msg desc="d"}x{` + e + `}y{/msg}`, "x" + v + "y", true
+	}},
+	{"bracket-index", true, func(e, v string, g *gen) (string, string, bool) {
+		g.use("big", map[string]interface{}{v: "hit"})
+		return "{$big[" + e + "]}", "hit", v != "__proto__"
+	}},
+}
+
+// BuildIndexed builds the program for one (form, context, string).
+func BuildIndexed(id int, f exprForm, c exprContext, w wrapper, s string) (*Program, bool) {
+	g := &gen{ns: nsFor(id), params: map[string]bool{}, data: map[string]interface{}{}, globals: map[string]interface{}{}}
+	if w.msg && !c.inMsg {
+		return nil, false
+	}
+	indexedData(g)
+	e := f.build(QuoteSoyU(s))
+	frag, exp, ok := c.build(e, f.value(s), g)
+	if !ok {
+		return nil, false
+	}
+	body, exp := w.apply(frag, exp, g)
+	// every declared param must be used: print the ones the form did not touch
+	for _, p := range []string{"arr", "idx", "nums", "mp", "i", "z", "k"} {
+		if !strings.Contains(frag, "$"+p) {
+			delete(g.params, p)
+			delete(g.data, p)
+		}
+	}
+	return assemble(id, g, "indexed-"+f.name+"-in-"+c.name, "indexed-expr", w.name, s, body, exp), true
+}
+
+// numeric contexts: range arguments and the plural subject
+func BuildIndexedNumeric(id int, kind string, w wrapper) (*Program, bool) {
+	g := &gen{ns: nsFor(id), params: map[string]bool{}, data: map[string]interface{}{}, globals: map[string]interface{}{}}
+	g.use("nums", []interface{}{0, 2})
+	g.use("i", 1)
+	g.use("z", 0)
+	var frag, exp string
+	switch kind {
+	case "range-args":
+		frag, exp = "{for $q in range(0 + $nums[$z], 1 + $nums[$i], 0 + $nums[$i] - 1)}{$q}{/for}", "012"
+	case "plural-subject":
+		frag, exp = `{msg desc="d"}{plural 0 + $nums[$z] + $nums[$i]}{case 2}two{default}other{/plural}{/msg}`, "two"
+	case "if-arith":
+		frag, exp = "{if 1 + $nums[$i] > $nums[$z] + $nums[$nums[$z]]}gt{else}le{/if}", "gt"
+	default:
+		return nil, false
+	}
+	if w.msg {
+		return nil, false
+	}
+	body, exp := w.apply(frag, exp, g)
+	return assemble(id, g, "indexed-"+kind, "indexed-expr", w.name, kind, body, exp), true
+}
+
+// ---- round 4: identifier hazards -----------------------------------------
+
+// HazardNames are names a template author may choose that are dangerous as
+// bare JavaScript identifiers: reserved words (ES3, ES5, ES2015+, strict
+// mode), names the generated code and its runtime use, Object.prototype names.
+var HazardNames = []string{
+	"break", "case", "catch", "class", "const", "continue", "debugger", "default", "delete", "do", "else", "enum", "export",
+	"extends", "false", "finally", "for", "function", "if", "import", "in", "instanceof", "new", "null", "return", "super",
+	"switch", "this", "throw", "true", "try", "typeof", "var", "void", "while", "with", "yield", "let", "static", "implements",
+	"interface", "package", "private", "protected", "public", "await", "arguments", "eval", "undefined", "NaN", "Infinity",
+	"abstract", "boolean", "byte", "char", "double", "final", "float", "goto", "int", "long", "native", "short", "synchronized",
+	"throws", "transient", "volatile",
+	"output", "soy", "goog", "opt_data", "opt_sb", "opt_ijData", "JSON", "Math", "Object", "String", "console",
+	"constructor", "toString", "__proto__", "hasOwnProperty", "valueOf", "prototype", "length", "name",
+}
+
+// identUses are the places where an author-chosen name reaches the generated code.
+var identUses = []string{"let-value", "let-content", "foreach-var", "for-var", "param", "call-param", "call-param-content",
+	"template-name", "namespace-segment", "nested-shadow", "loop-in-let"}
+
+const identPayload = `v'"\<`
+
+// BuildIdent builds the program in which the author calls something `name`.
+// root=true uses the program's own namespace root as the name.
+func BuildIdent(id int, use, name string, w wrapper) (*Program, bool) {
+	g := &gen{ns: nsFor(id), params: map[string]bool{}, data: map[string]interface{}{}, globals: map[string]interface{}{}}
+	if name == "<root>" {
+		name = rootOf(g.ns)
+	}
+	q := q(identPayload)
+	var frag string
+	exp := identPayload
+	extraTmpl := ""
+	switch use {
+	case "let-value":
+		frag = "{let $" + name + ": " + q + "/}{$" + name + "}"
+	case "let-content":
+		frag = "{let $" + name + "}" + `v'"\<` + "{/let}{$" + name + "}"
+	case "foreach-var":
+		frag = "{foreach $" + name + " in [" + q + ", 'z']}{$" + name + "}{if isLast($" + name + ")}!{/if}{/foreach}"
+		exp += "z!"
+	case "for-var":
+		frag = "{for $" + name + " in range(2)}{$" + name + "}{/for}" + `v'"\<`
+		exp = "01" + exp
+	case "param":
+		g.use(name, identPayload)
+		frag = "{$" + name + "}"
+	case "call-param":
+		frag = "{call .callee}{param " + name + ": " + q + "/}{/call}"
+		extraTmpl = "\n/** @param " + name + " */\n{template .callee autoescape=\"false\"}{$" + name + "}{/template}\n"
+	case "call-param-content":
+		frag = "{call .callee}{param " + name + "}" + `v'"\<` + "{/param}{/call}"
+		extraTmpl = "\n/** @param " + name + " */\n{template .callee autoescape=\"false\"}{$" + name + "}{/template}\n"
+	case "template-name":
+		frag = "{call ." + name + "/}"
+		extraTmpl = "\n/** */\n{template ." + name + " autoescape=\"false\"}" + `v'"\<` + "{/template}\n"
+	case "namespace-segment":
+		g.ns = rootOf(g.ns) + "." + name + ".x"
+		frag = `v'"\<`
+	case "nested-shadow":
+		// the same name declared again in an inner block, and a sibling of the generated name's usual form
+		frag = "{let $" + name + ": 'a'/}{if true}{let $" + name + ": " + q + "/}{$" + name + "}{/if}{$" + name + "}{let $" + name + "1: 'b'/}{$" + name + "1}"
+		exp += "ab"
+	case "loop-in-let":
+		frag = "{let $" + name + "}{foreach $" + name + "List in [1]}{$" + name + "List}{/foreach}{/let}{$" + name + "}" + `v'"\<`
+		exp = "1" + exp
+	default:
+		return nil, false
+	}
+	body, exp := w.apply(frag, exp, g)
+	p := assemble(id, g, "ident-"+use, "identifier", w.name, name, body, exp)
+	if extraTmpl != "" {
+		p.File.Text += extraTmpl
+		m := regexp.MustCompile(`\{template \.([A-Za-z_0-9]+)`).FindStringSubmatch(extraTmpl)
+		p.Templates = append(p.Templates, g.ns+"."+m[1])
+		sort.Strings(p.Templates)
+	}
+	return p, true
 }
